@@ -52,6 +52,13 @@ type Box struct {
 	ClosedStdout bool
 	// FullStdout: the next run's standard output is /dev/full (every write fails with ENOSPC). Reset after one run.
 	FullStdout bool
+	// FileOutputs: standard output and standard error of every run are regular files, as under
+	// `spok build >out.log 2>err.log` or a CI system that captures logs in files (fsync works on
+	// them, isatty says no, writes never block); read back after the run. Reset by ResetFor.
+	FileOutputs bool
+	// FsizeLimit: when > 0, the next run may not make any file larger than this many bytes (prlimit
+	// --fsize): a write beyond it fails with EFBIG, as on a full disk or over quota. Reset after one run.
+	FsizeLimit int64
 	// Cpus: when set (e.g. "0,1"), spok is started under `taskset -c <Cpus>` — it then sees that many CPUs
 	Cpus string
 }
@@ -124,6 +131,7 @@ func (b *Box) ResetFor(name, invoke string) error {
 	b.Proj = filepath.Join(b.Home, name)
 	b.Invoke = invoke
 	b.Cpus = ""
+	b.FileOutputs = false
 	if err := b.Reset(); err != nil {
 		return err
 	}
@@ -229,6 +237,13 @@ func (b *Box) RunWrapped(wrapper []string, cwd string, env []string, timeout tim
 			wrapper = append([]string{ts, "-c", b.Cpus}, wrapper...)
 		}
 	}
+	fsize := b.FsizeLimit
+	b.FsizeLimit = 0
+	if fsize > 0 {
+		if pl, err := exec.LookPath("prlimit"); err == nil {
+			wrapper = append([]string{pl, fmt.Sprintf("--fsize=%d", fsize), "--"}, wrapper...)
+		}
+	}
 	argv := append(append(append([]string(nil), wrapper...), b.Spok), args...)
 	cmd := exec.CommandContext(cx, argv[0], argv[1:]...)
 	cmd.Dir = cwd
@@ -243,6 +258,18 @@ func (b *Box) RunWrapped(wrapper []string, cwd string, env []string, timeout tim
 	cmd.Cancel = func() error { return syscall.Kill(-cmd.Process.Pid, syscall.SIGKILL) }
 	var so, se bytes.Buffer
 	cmd.Stdout, cmd.Stderr = &so, &se
+	var outF, errF *os.File
+	if b.FileOutputs && fsize == 0 {
+		if f1, e1 := os.CreateTemp(b.Dir, "stdout-*.log"); e1 == nil {
+			if f2, e2 := os.CreateTemp(b.Dir, "stderr-*.log"); e2 == nil {
+				outF, errF = f1, f2
+				cmd.Stdout, cmd.Stderr = f1, f2
+			} else {
+				_ = f1.Close()
+				_ = os.Remove(f1.Name())
+			}
+		}
+	}
 	if b.ClosedStdout {
 		b.ClosedStdout = false
 		if pr, pw, perr := os.Pipe(); perr == nil {
@@ -260,6 +287,18 @@ func (b *Box) RunWrapped(wrapper []string, cwd string, env []string, timeout tim
 	}
 	err := cmd.Run()
 	res := Result{Stdout: so.String(), Stderr: se.String()}
+	if outF != nil {
+		for _, f := range []*os.File{outF, errF} {
+			data, _ := os.ReadFile(f.Name())
+			if f == outF && cmd.Stdout == outF {
+				res.Stdout = string(data)
+			} else if f == errF {
+				res.Stderr = string(data)
+			}
+			_ = f.Close()
+			_ = os.Remove(f.Name())
+		}
+	}
 	if cx.Err() != nil {
 		res.TimedOut = true
 	}
